@@ -24,5 +24,5 @@ Separate Extraction
   SetImpl.run SetImpl.step
   Heap.run Heap.empty Heap.lookup Heap.arr Heap.idx
   Lexer.parse Lexer.original Lexer.repaired Lexer.chunks LexSpec.spec_parse LexEquiv.lang_wf'
-  ScoringProof.src ScoringProof.dst TokWF.tables_wf Normalize.normalize Match.match_tokens Float64.of_bits Float64.to_bits Float64.of_Z TokTables.in_ranges
+  SSet.compute_q ScoringProof.src ScoringProof.dst TokWF.tables_wf Normalize.normalize Match.match_tokens Float64.of_bits Float64.to_bits Float64.of_Z TokTables.in_ranges
   Reader.tokenize_stream Tok.tokenize_whole Tok.tokenize_runes TokTables.mk_tables Utf8.decode_all Utf8.encode_all.
